@@ -505,6 +505,12 @@ class Interp:
                 return (self.elem_from_term(kinds[0], smt.tup2_0(t)), self.elem_from_term(kinds[1], smt.tup2_1(t)))
         if lst_elem.startswith("ref:"):
             return self.world.deref(self, lst_elem[4:], t)
+        if lst_elem == "tsnotif":
+            n = self.notif_from_val(smt.tup2_0(t))
+            cls = self.module_get("reactivex.operators._timestamp", "Timestamp")
+            return self.call(cls, [], {"value": n, "timestamp": IntSV(smt.val2int(smt.tup2_1(t)))})
+        if lst_elem == "tupnotif":
+            return (self.notif_from_val(smt.tup2_0(t)), IntSV(smt.val2int(smt.tup2_1(t))))
         if lst_elem.startswith("rec:"):
             # a dict record with fixed string keys, stored as the tuple of its fields: rec:interval=int,value=val
             fs = [f.split("=") for f in lst_elem[4:].split(",")]
@@ -512,8 +518,39 @@ class Interp:
                 return DictObj({fs[0][0]: self.elem_from_term(fs[0][1], smt.tup2_0(t)), fs[1][0]: self.elem_from_term(fs[1][1], smt.tup2_1(t))})
         raise Unsupported(f"element kind {lst_elem}")
 
+    # -- notifications and time-stamped notifications as list elements (delay's queue) -------------------------------
+    NOTIF_KINDS = {"OnNext": 1, "OnCompleted": 2, "OnError": 3}
+
+    def notif_to_val(self, n):
+        """a Notification object as the pair (kind code, payload)"""
+        if not (isinstance(n, Obj) and n.cls.name in self.NOTIF_KINDS):
+            raise Unsupported(f"notification expected: {n!r}")
+        k = self.NOTIF_KINDS[n.cls.name]
+        payload = n.fields.get("value") if k == 1 else (n.fields.get("exception") if k == 3 else None)
+        if k == 3:
+            self.ctx.notes.append("error-record-stored")
+        return self.to_val((k, payload))
+
+    def notif_from_val(self, t):
+        """decode; the lists that hold notifications hold elements and completions only (checked where they are stored)"""
+        kind = smt.val2int(smt.tup2_0(t))
+        self.ctx.assume(z3.Or(kind == 1, kind == 2))
+        mod = "reactivex.notification"
+        if self.ctx.branch(kind == 1, "the record is an element"):
+            return self.call(self.module_get(mod, "OnNext"), [ValSV(smt.tup2_1(t))], {})
+        return self.call(self.module_get(mod, "OnCompleted"), [], {})
+
     def elem_to_val(self, lst_elem, v):
         """encode a value stored into a symbolic list according to the list's declared element kind"""
+        if lst_elem == "tsnotif":
+            # Timestamp(value=<notification>, timestamp=<int>)
+            if not (isinstance(v, Obj) and v.cls.name == "Timestamp"):
+                raise Unsupported(f"Timestamp record expected: {v!r}")
+            return self.to_val((ValSV(self.notif_to_val(v.fields["value"])), v.fields["timestamp"]))
+        if lst_elem == "tupnotif":
+            if not (isinstance(v, tuple) and len(v) == 2):
+                raise Unsupported(f"(notification, due) expected: {v!r}")
+            return self.to_val((ValSV(self.notif_to_val(v[0])), v[1]))
         if lst_elem.startswith("rec:"):
             fs = [f.split("=") for f in lst_elem[4:].split(",")]
             if not (isinstance(v, DictObj) and not v.symbolic and set(v.d) == {f[0] for f in fs}):
